@@ -190,14 +190,24 @@ def _table_source(pid, name, tier):
     return st, viols, info
 
 
-def _corpus_prop(pid, need, with_model=True, extra_assume=(), tables=()):
+def _corpus_prop(pid, need, with_model=True, extra_assume=(), tables=(), minimize=False):
     def fn(tier: str) -> PropResult:
         cs, v1 = _corpus_violations(pid, tier)
+        mz = None
+        if minimize:
+            from .mod_minimize import minimize_violations
+            mz, vm = minimize_violations(pid, tier)
+            v1 = v1 + vm
         ms, v2 = _model_violations(pid, tier) if with_model else (None, [])
         vac = _need(cs["stats"], need)
         if ms and ms["untaken_actions"]:
             vac += ["model action never taken: " + a for a in ms["untaken_actions"]]
         cov = _corpus_cov(cs, ms, pid)
+        if mz is not None:
+            cov["minimize_api"] = {"module": "MinimizeAPI.tla", "states": mz["states"], **mz["stats"], "sample": mz["sample"]}
+            cov["states"] += mz["states"]
+            cov["transitions"] += mz["states"]
+            cov["traces_validated_against_impl"] += mz["stats"]["runs"]
         v3 = []
         for t in tables:
             st, vt, info = _table_source(pid, t, tier)
@@ -212,14 +222,14 @@ def _corpus_prop(pid, need, with_model=True, extra_assume=(), tables=()):
 
 
 _corpus_prop("C01", ["objective_calls", "generations_recorded", "rounds_with_sprouts", "engine:LOCAL", "engine:CMA",
-                     "engine:DE", "engine:SHADE", "engine:SEA", "engine:LHS", "engine:SOBOL"], with_model=False)
+                     "engine:DE", "engine:SHADE", "engine:SEA", "engine:LHS", "engine:SOBOL"], with_model=False, minimize=True)
 _corpus_prop("C02", ["generations_recorded", "engine:LOCAL", "engine:CMA", "engine:DE", "snapshots_after_refusal"],
-             with_model=False)
-_corpus_prop("C03", ["ev:gsc", "engine:LOCAL", "gsc:SingularEvalLimit", "gsc:WeightedEvalLimit"])
-_corpus_prop("C04", ["generations_recorded", "maximize", "minimize"], with_model=False)
+             with_model=False, minimize=True)
+_corpus_prop("C03", ["ev:gsc", "engine:LOCAL", "gsc:SingularEvalLimit", "gsc:WeightedEvalLimit"], minimize=True)
+_corpus_prop("C04", ["generations_recorded", "maximize", "minimize"], with_model=False, minimize=True)
 _corpus_prop("C05", ["gsc_first_true_at:run", "gsc_first_true_at:step", "gsc_first_true_at:deme",
                      "gsc_true_with_demes_still_queued", "gsc:MetaepochLimit", "gsc:SingularEvalLimit",
-                     "gsc:WeightedEvalLimit", "gsc:RootStopped", "gsc:AllStopped", "gsc:NoActiveNonroot", "gsc:Scripted"])
+                     "gsc:WeightedEvalLimit", "gsc:RootStopped", "gsc:AllStopped", "gsc:NoActiveNonroot", "gsc:Scripted"], minimize=True)
 _corpus_prop("C06", ["lsc_true", "ev:lsc", "rounds_with_sprouts", "hibernation_on", "hibernation_off"])
 _corpus_prop("C07", ["rounds_with_sprouts", "rounds_with_several_parents", "levels=3", "levels=1"])
 _corpus_prop("C08", ["rounds_with_sprouts", "rounds_where_filters_removed", "rounds_with_several_parents", "lsc_true"],
@@ -327,6 +337,9 @@ def c14(tier: str) -> PropResult:
     from .mod_pairs import pairs_stage
     ps = pairs_stage(tier)
     viols = _pair_violations("C14", "repeat", "C14_RepeatEqual", ps)
+    from .mod_minimize import minimize_violations
+    mz, vm = minimize_violations("C14", tier)
+    viols += vm
     n = ps["stats"]["repeat_pairs"] + ps["stats"]["subprocess_pairs"]
     cov = {"states": ps["pair_states"] + ps["trace_states"], "transitions": ps["pair_states"] + ps["trace_states"],
            "traces_validated_against_impl": 2 * n, "samples": [ps["sample"]],
@@ -334,7 +347,9 @@ def c14(tier: str) -> PropResult:
            "rule": "one evaluation = one pair of runs of a seeded configuration of the full engine matrix: in-process vs in-process "
                    "after scrambling the global random / numpy generators, and vs a fresh subprocess with another PYTHONHASHSEED; "
                    "PairTrace.tla requires the two event streams to be equal",
-           "pairs": ps["stats"]}
+           "pairs": ps["stats"],
+           "minimize_api": {"module": "MinimizeAPI.tla", "groups": mz["stats"]["groups"], "runs": mz["stats"]["runs"],
+                            "clause": "C14_MinimizeRepeat (runs of minimize(seed=s) with equal arguments are identical)"}}
     vac = [k for k in ("subprocess_pairs", "repeat_pairs") if ps["stats"].get(k, 0) == 0]
     return PropResult(viols, cov, [
         "the specification's contribution is thin here (equality of behaviours); the quantifier is carried by the corpus",
